@@ -41,6 +41,7 @@ def adjudicate(prop, cases, confirm_fn, limit=12):
     known = load_known()
     out = {"violations": [], "known": {}, "unconfirmed": 0}
     seen_sig = set()
+    unconf_by_what = {}
     for c in cases:
         m = c["mismatch"]
         f = next((k for k in known if matches(k, prop, m, c)), None)
@@ -52,6 +53,11 @@ def adjudicate(prop, cases, confirm_fn, limit=12):
             continue
         if len(out["violations"]) >= limit:
             continue
+        # bound the work on mismatches that do not show again in isolation: two per kind, ten in all (the
+        # verdict is already "inconclusive" or "violation" by then; the rest of the same kind adds nothing)
+        if unconf_by_what.get(m.get("what"), 0) >= 2 or out["unconfirmed"] >= 10:
+            out["skipped"] = out.get("skipped", 0) + 1
+            continue
         seen_sig.add(sig)
         # the implementation iterates Go maps: an order dependent defect needs
         # several attempts to show again
@@ -62,6 +68,7 @@ def adjudicate(prop, cases, confirm_fn, limit=12):
                 break
         if not got:
             out["unconfirmed"] += 1
+            unconf_by_what[m.get("what")] = unconf_by_what.get(m.get("what"), 0) + 1
             p = save_replay("unconfirmed-" + prop, {"property": prop, "mismatch": m, "case": c})
             log("mismatch did not reproduce in isolation (%d attempts, kept as %s): %s" % (CONFIRM_ATTEMPTS, p, json.dumps(m)[:300]))
             continue
